@@ -202,7 +202,11 @@ def build_job(r, ext):
                 parts.append(f"printf 'RET{k}\\000\\377 payload %s' {k} > ret{k}.dat")
         parts.append(f"exit {c['code'] if fail_at == i else 0}")
         script = "; ".join(parts)
-        commands.append((f"sh -c {_sh_quote(script)}", f"c{i}" if c["named"] else None))
+        if fail_at == i and c.get("noexe"):
+            # the failure of this command is that its program cannot be started at all
+            commands.append(("/nonexistent/vf-missing-program --flag", f"c{i}" if c["named"] else None))
+        else:
+            commands.append((f"sh -c {_sh_quote(script)}", f"c{i}" if c["named"] else None))
     envars = {"VF_A": r["env"][0], "VF_B": r["env"][1]} if r["env"] is not None else None
     inp = JobInput(jid=r["jid"], commands=commands, files=files or None, return_files=tuple(rets), envars=envars)
     return inp, dict(files=files, fail_at=fail_at, rets=rets, ncmd=ncmd, envars=envars)
@@ -233,6 +237,8 @@ def run_job(inp, d, real):
                 code = 0
             except SystemExit as e:
                 code = e.code if isinstance(e.code, int) else (0 if e.code is None else 1)
+            except Exception:
+                code = 1      # what the interpreter does with an uncaught exception in the real _molli_run
         except BaseException:
             code = 71
         finally:
@@ -258,6 +264,9 @@ def check_exec(r) -> list[Fail]:
             raise HarnessError("forked run_local could not start")
         ncmd, fa = exp["ncmd"], exp["fail_at"]
         ran = list(range(ncmd if fa is None else fa + 1))
+        noexe = fa is not None and bool(r["cmds"][fa].get("noexe"))
+        if noexe:
+            ran = ran[:-1]     # the unstartable command leaves no marker; nothing after it may run
         # ---- order, stop at first failure
         marker = open(os.path.join(ext, "marker.log")).read().split() if os.path.exists(os.path.join(ext, "marker.log")) else []
         if marker != [f"CMD{i}" for i in ran]:
@@ -291,7 +300,11 @@ def check_exec(r) -> list[Fail]:
         if len(cwds) > 1:
             fails.append(Fail("commands-ran-in-different-directories", f"{via}: {cwds}"))
         # ---- the report
-        if not os.path.exists(outf):
+        if noexe:
+            # only what the statement says about failures: non-zero exit, nothing after the failure, no residue
+            if status == 0:
+                fails.append(Fail("exit-status-wrong:zero-although-failed", f"{via}: a command whose program cannot be started, exit 0"))
+        elif not os.path.exists(outf):
             fails.append(Fail("no-output-file-written", f"{via}: exit {status}"))
         else:
             out = JobOutput.load(outf)
@@ -337,13 +350,13 @@ def classify_exec(r):
     fa = r["fail_at"] if r["fail_at"] is not None and r["fail_at"] < ncmd else None
     miss = any(m or (fa is not None and at % ncmd > fa) for at, m in r["rets"])
     binf = any(k == "bin" for k, _ in r["files"])
-    lab = [f"ncmd={ncmd}", f"fail_at={fa}", "real" if r["real"] else "fork", "env_override" if r["env"] else "env_inherited"] + (["missing_return_file"] if miss else []) + (["binary_file"] if binf else [])
+    lab = (["failure=program_cannot_be_started"] if fa is not None and r["cmds"][fa].get("noexe") else []) + [f"ncmd={ncmd}", f"fail_at={fa}", "real" if r["real"] else "fork", "env_override" if r["env"] else "env_inherited"] + (["missing_return_file"] if miss else []) + (["binary_file"] if binf else [])
     return (ncmd >= 2 and fa is not None and fa > 0) or miss or binf, lab
 
 
 def strat_exec(tier):
     txt = st.text("abcXYZ 019_-:;,.é", max_size=12)
-    cmd = st.fixed_dictionaries({"named": st.booleans(), "out": txt, "err": txt, "code": st.integers(1, 120)})
+    cmd = st.fixed_dictionaries({"named": st.booleans(), "out": txt, "err": txt, "code": st.integers(1, 120), "noexe": st.sampled_from([False, False, False, True])})
     return st.fixed_dictionaries({
         "jid": st.sampled_from(["job", "j-1", "mol_A"]), "cmds": st.lists(cmd, min_size=1, max_size=4),
         "fail_at": st.one_of(st.none(), st.integers(0, 3)),
